@@ -166,6 +166,12 @@ unsafe impl GlobalAlloc for Checking {
   }
 
   unsafe fn dealloc(&self, p: *mut u8, l: Layout) {
+    if FAILED && SCOPE {
+      if let Some(i) = find_live(p as usize) {
+        // the code released a block after an allocator request failed, before diverging
+        oracle(format_args!("freed-after-failed-request blk={} size={}", BLKS[i].no, BLKS[i].size));
+      }
+    }
     if !SCOPE || FAILED {
       if find_live(p as usize).is_none() {
         // a stale entry must not survive the block: its address may be handed out again later
